@@ -102,7 +102,8 @@ def gen_condition_template(rng, n):
     def operand():
         k = rng.random()
         if k < 0.45:
-            return rng.choice(["a", "b", "prod", "true", "TRUE", "1", 1, True, False, 0, "", "x-y"])
+            return rng.choice(["a", "b", "prod", "true", "TRUE", "1", 1, True, False, 0, "", "x-y",
+                               "us-east-1", "eu-west-1", "999", "123456789012", "aws-cn", "aws", "other", "changed"])
         if k < 0.75:
             return {"Ref": rng.choice(list(decls) + PSEUDO_NAMES + ["Missing"])}
         if k < 0.9:
@@ -394,7 +395,8 @@ def vary_extra(rng, x):
     e = dict(x["extra"])
     k = rng.random()
     if k < 0.4:
-        e[rng.choice(PSEUDO_NAMES)] = rng.choice(["us-east-1", "999", "aws-cn", "other"])
+        n = rng.choice(PSEUDO_NAMES)
+        e[n] = {"AWS::Region": "us-east-1", "AWS::AccountId": "999", "AWS::Partition": "aws-cn"}.get(n, "other")
     elif k < 0.6:
         for n in [n for n in e if n in PSEUDO_NAMES][:1]:
             del e[n]
